@@ -181,6 +181,8 @@ var hdrKinds = []string{"none", "same", "oddeven", "different", "same+sub", "num
 	// a marginal line drawn twice on the same page (shadow copy 1.5 pt to the right and below): without and with
 	// repetition across pages, top and bottom band
 	"different+shadow", "same+shadow", "bottom-different+shadow",
+	// two different running items side by side in one band: title left + document code right
+	"same+right", "bottom-same+right",
 	// running line absent from some pages (own sub-space, P in 2..6): a title page without the running header;
 	// a line on the first two pages only
 	"same-not-first", "minority"}
@@ -206,27 +208,58 @@ var runLines = map[string]string{
 }
 
 // extendedHdr: header kinds added after the first version; part (B) runs them on a reduced body / size product.
-func extendedHdr(hdr string) bool { _, ok := runLines[hdr]; return ok || shadowHdr(hdr) }
+func extendedHdr(hdr string) bool {
+	_, ok := runLines[hdr]
+	return ok || shadowHdr(hdr) || strings.HasSuffix(hdr, "+right")
+}
 
-type pnKind struct{ style, pos string }
+type pnKind struct {
+	style, pos string
+	ext        bool // letter-case variant of a documented label style: enumerated on a reduced product
+}
+
+// pnFormats: page-number styles (%[1]d = page number, %[2]d = page count). The first group are the documented
+// spellings; the second group the same label styles in another letter case (the documented matching is
+// case-insensitive), plus the two documented spellings "pg. n" and "p.n", each printed in one band.
+var pnFormats = map[string]string{
+	"n": "%[1]d", "Page_n": "Page %[1]d", "n_of_N": "%[1]d of %[2]d", "-_n_-": "- %[1]d -",
+	"Page_n_of_N": "Page %[1]d of %[2]d", "n/N": "%[1]d/%[2]d", "p._n": "p. %[1]d", "pg_n": "pg %[1]d",
+
+	"PAGE_n": "PAGE %[1]d", "page_n": "page %[1]d", "PaGe_n": "PaGe %[1]d",
+	"n_OF_N": "%[1]d OF %[2]d", "n_Of_N": "%[1]d Of %[2]d",
+	"PAGE_n_OF_N": "PAGE %[1]d OF %[2]d", "page_n_of_n": "page %[1]d of %[2]d", "Page_n_Of_N": "Page %[1]d Of %[2]d",
+	"P._n": "P. %[1]d", "PG_n": "PG %[1]d", "Pg_n": "Pg %[1]d",
+	"pg._n": "pg. %[1]d", "Pg._n": "Pg. %[1]d", "PG._n": "PG. %[1]d",
+	"p.n": "p.%[1]d", "P.n": "P.%[1]d",
+}
+
+var pnCaseVariants = []pnKind{
+	{"PAGE_n", "bottom", true}, {"page_n", "top", true}, {"PaGe_n", "top", true},
+	{"n_OF_N", "bottom", true}, {"n_Of_N", "top", true},
+	{"PAGE_n_OF_N", "bottom", true}, {"page_n_of_n", "bottom", true}, {"Page_n_Of_N", "top", true},
+	{"P._n", "bottom", true}, {"PG_n", "bottom", true}, {"Pg_n", "top", true},
+	{"pg._n", "top", true}, {"Pg._n", "bottom", true}, {"PG._n", "top", true},
+	{"p.n", "top", true}, {"P.n", "bottom", true},
+}
 
 // pnKinds: page-number styles x where they are printed (bottom band = footer, top band = above the header).
-// quick: the four styles of the design; thorough adds the other documented patterns.
+// quick: the four styles of the design; thorough adds the other documented patterns. Both tiers add the
+// letter-case variants (reduced product, see inSpace).
 func pnKinds(thorough bool) []pnKind {
 	styles := []string{"n", "Page_n", "n_of_N", "-_n_-"}
 	if thorough {
 		styles = append(styles, "Page_n_of_N", "n/N", "p._n", "pg_n")
 	}
-	o := []pnKind{{"none", "-"}}
+	o := []pnKind{{"none", "-", false}}
 	for _, pos := range []string{"bottom", "top"} {
 		for i, st := range styles {
 			if !thorough && pos == "top" && i >= 2 {
 				continue // quick: only "n" and "Page n" are also printed at the top
 			}
-			o = append(o, pnKind{st, pos})
+			o = append(o, pnKind{st, pos, false})
 		}
 	}
-	return o
+	return append(o, pnCaseVariants...)
 }
 
 type bodyKind struct {
@@ -256,32 +289,22 @@ const (
 	subDist   = 46.0
 	pnDist    = 14.0 // a page number printed at the top sits above the header line
 	ftrY      = 36.0
-	runFtrY   = 18.0 // a running footer text line sits below the page number
-	shadowOff = 1.5  // offset of a shadow copy
+	runFtrY   = 18.0  // a running footer text line sits below the page number
+	shadowOff = 1.5   // offset of a shadow copy
+	rightX    = 400.0 // x of the right-hand item of a band
 	runHdr    = "Running Title Alpha"
 	repLine   = "Confidential Draft Zulu"
 )
 
 func footerText(kind string, n, N int) string {
-	switch kind {
-	case "n":
-		return fmt.Sprint(n)
-	case "Page_n":
-		return fmt.Sprintf("Page %d", n)
-	case "n_of_N":
-		return fmt.Sprintf("%d of %d", n, N)
-	case "-_n_-":
-		return fmt.Sprintf("- %d -", n)
-	case "Page_n_of_N":
-		return fmt.Sprintf("Page %d of %d", n, N)
-	case "n/N":
-		return fmt.Sprintf("%d/%d", n, N)
-	case "p._n":
-		return fmt.Sprintf("p. %d", n)
-	case "pg_n":
-		return fmt.Sprintf("pg %d", n)
+	f, ok := pnFormats[kind]
+	if !ok {
+		panic("footer kind " + kind)
 	}
-	panic("footer kind " + kind)
+	if strings.Contains(f, "%[2]d") {
+		return fmt.Sprintf(f, n, N)
+	}
+	return fmt.Sprintf(f, n)
 }
 
 // pageHeights: "letter" = 792 everywhere, "a4" = 842 everywhere, "mixed" = Letter on odd, A4 on even pages.
@@ -338,6 +361,9 @@ func buildDoc(P int, hdr string, pn pnKind, body bodyKind, size string) *ldoc {
 			add("hdr-diff", "Chapter "+animals[p], hdrX, topY(hdrDist))
 		case "numbered":
 			add("hdr-numbered", fmt.Sprintf("Section %d Overview", p+1), hdrX, topY(hdrDist))
+		case "same+right":
+			add("hdr-same", runHdr, hdrX, topY(hdrDist))
+			add("hdr-same", "Document Code Tango", rightX, topY(hdrDist))
 		case "same+shadow":
 			add("hdr-same", runHdr, hdrX, topY(hdrDist))
 			add("hdr-same", runHdr, hdrX+shadowOff, topY(hdrDist)-shadowOff)
@@ -399,6 +425,10 @@ func buildDoc(P int, hdr string, pn pnKind, body bodyKind, size string) *ldoc {
 		}
 		if t, ok := runLines[hdr]; ok && strings.HasPrefix(hdr, "bottom-") {
 			add("ftr-same", t, ftrX, runFtrY)
+		}
+		if hdr == "bottom-same+right" {
+			add("ftr-same", "Acme Internal Memo", ftrX, runFtrY)
+			add("ftr-same", "Restricted Circulation Uniform", rightX, runFtrY)
 		}
 		if hdr == "bottom-different+shadow" {
 			add("ftr-diff", "Footnote "+animals[p], ftrX, runFtrY)
